@@ -61,4 +61,96 @@ def Race (cls : List Nat) (hb : Event → Event → Prop) (a b : Event) : Prop :
   a.g ≠ b.g ∧ a.acc.field = b.acc.field ∧ owned cls a.acc.field = true ∧
   (a.acc.write = true ∨ b.acc.write = true) ∧ ¬ hb a b ∧ ¬ hb b a
 
+/-! ### Lock nesting
+
+`Generated/Access.lean` lists every acquisition of a lock made while another lock is held (`LockEdge`), as
+extracted from the source: lexically nested `Lock`/`RLock` calls, bbolt transactions (`bbolt.rw` = the
+single-writer lock held by `db.Update`/`db.Batch`, `bbolt.ro` = the mmap read lock held by `db.View`), and
+acquisitions made by a function called — transitively — from inside the critical section.  The event loop of a
+torrent is the pseudo-lock `torrent.loop`: `torrent.run` holds it while it handles an event, and a function that
+waits for the loop to take a command or to exit (`sendCommand`, `recvResponse`, `<-t.doneC`, also on a goroutine
+the function then joins with a `WaitGroup`) acquires it.  Locks are named by
+owner type and field, so all instances of one field are one node, and a read lock is the same node as the write
+lock of its `RWMutex`: `RLock` inside `RLock` of the same mutex deadlocks as soon as a writer waits in between.
+A potential deadlock is a cycle of the graph on lock names; a self-edge is a cycle. -/
+
+/-- `fn` acquires lock `acq` while it holds lock `held`; `via = 0`: lexically, `via = k+1`: inside callee `k`. -/
+structure LockEdge where
+  fn : Nat
+  held : Nat
+  acq : Nat
+  via : Nat
+  deriving Repr, DecidableEq, Inhabited
+
+/-- Inside a loop over a collection `fn` takes lock `lock` of the next element while it still holds the one of
+the previous element; `gate = k+1`: the exclusive lock `k` is held around the whole sequence, `gate = 0`: none. -/
+structure LoopLock where
+  fn : Nat
+  lock : Nat
+  gate : Nat
+  deriving Repr, DecidableEq, Inhabited
+
+/-- The graph on lock ids: one edge `held → acquired` per extracted nesting. -/
+def lockGraph (es : List LockEdge) : List (Nat × Nat) := es.map fun e => (e.held, e.acq)
+
+/-- One round of sink elimination: keep the edges whose target still has an outgoing edge. -/
+def prune (g : List (Nat × Nat)) : List (Nat × Nat) := g.filter fun e => g.any fun f => f.1 == e.2
+
+/-- `n` rounds of sink elimination. -/
+def pruneN : Nat → List (Nat × Nat) → List (Nat × Nat)
+  | 0, g => g
+  | n + 1, g => pruneN n (prune g)
+
+/-- The graph is accepted iff eliminating sinks `|g|` times removes every edge (every round of a non-empty
+acyclic graph removes at least the edges into its sinks, so `|g|` rounds suffice; an edge on a cycle is never
+removed — `Lemmas/LockGraph.lean`). -/
+def graphAcyclic (g : List (Nat × Nat)) : Bool := (pruneN g.length g).isEmpty
+
+/-- The decidable check evaluated by the kernel on the extracted table. -/
+def lockGraphAcyclic (es : List LockEdge) : Bool := graphAcyclic (lockGraph es)
+
+/-- `Path g a b`: a non-empty walk `a → … → b` along edges of `g`. -/
+inductive Path (g : List (Nat × Nat)) : Nat → Nat → Prop
+  | single {a b : Nat} : (a, b) ∈ g → Path g a b
+  | cons {a b c : Nat} : (a, b) ∈ g → Path g b c → Path g a c
+
+/-- The same with the intermediate locks spelled out: `Walk g l₀ [l₁, …, lₖ] b` is `l₀ → l₁ → … → lₖ → b`. -/
+def Walk (g : List (Nat × Nat)) (a : Nat) : List Nat → Nat → Prop
+  | [], b => (a, b) ∈ g
+  | c :: cs, b => (a, c) ∈ g ∧ Walk g c cs b
+
+/-- Every loop-carried acquisition sequence runs under an exclusive gate lock. -/
+def loopCarriedGated (ls : List LoopLock) : Bool := ls.all fun l => l.gate != 0
+
+/-- The edges of the graph that lie on a cycle (what survives the elimination), for reporting. -/
+def cyclicEdges (es : List LockEdge) : List (Nat × Nat) := pruneN (lockGraph es).length (lockGraph es)
+
+/-! ### Lock-guarded fields of `Session`
+
+The struct layout of `Session` places fields under a mutex (`mTorrents`: `torrents`, `torrentsByInfoHash`,
+`invalidTorrentIDs`, `pendingIDs`; `mPorts`: `availablePorts`; `mBlocklist`: `blocklist`, `blocklistTimestamp`;
+`mPeerRequests`: `dhtPeerRequests`).  `Generated/Access.lean` lists every access to such a field with the mode in
+which the guard is held there — lexically, or by every caller of the function. -/
+
+/-- `mode`: 0 = guard not held, 1 = held shared (`RLock`), 2 = held exclusive (`Lock`).  `ctor`: the access can only
+run during construction (`NewSession` and the functions only it calls). -/
+structure SessAcc where
+  fn : Nat
+  field : Nat
+  write : Bool
+  mode : Nat
+  ctor : Bool
+  deriving Repr, DecidableEq, Inhabited
+
+/-- Is the field written after construction at all?  (If not — the pointer to the internally synchronised
+blocklist — reading it needs no lock.) -/
+def sessFieldWritten (tbl : List SessAcc) (f : Nat) : Bool := tbl.any fun a => a.field == f && a.write && !a.ctor
+
+/-- The rule: outside construction a write holds the guard exclusively and a read holds it at least shared. -/
+def sessGuardOk (tbl : List SessAcc) (a : SessAcc) : Bool :=
+  a.ctor || !sessFieldWritten tbl a.field || (if a.write then a.mode == 2 else a.mode != 0)
+
+/-- The accesses that break the rule. -/
+def sessUnguarded (tbl : List SessAcc) : List SessAcc := tbl.filter fun a => !sessGuardOk tbl a
+
 end Rain.Discipline
